@@ -53,3 +53,15 @@ Theorem C04_subslot : forall p, wf p -> forall t f e, sleaf_dates (sschedule p) 
   (forall s, s_pin (stask_of p t) = Some s -> (s <= f)%Z /\ (s_mile (stask_of p t) = true -> f = s)).
 Proof. exact subslot_deps. Qed.
 Print Assumptions C04_subslot.
+
+(* ---- second granularity, teams with limits (Model/SubSlotTeam.v), every well-formed project *)
+Require Import SP.Model.SubSlotTeam SP.Proofs.SubSlotTeamProofs SP.Proofs.SubSlotTeamDates.
+Theorem C04_subslot_teams : forall p, twf p -> forall t f e, sleaf_dates (tschedule p) t = Some (f, e) ->
+  (tt_pin (ttask_of p t) = None ->
+     (tt_lb (ttask_of p t) <= f)%Z /\
+     forall d, In d (tt_deps (ttask_of p t)) ->
+       exists s' e', tdates p (tschedule p) (sd_task d) = Some (s', e') /\
+                     ((if sd_onstart d then s' else e') + sd_gap d <= f)%Z) /\
+  (forall s, tt_pin (ttask_of p t) = Some s -> (s <= f)%Z /\ (tt_mile (ttask_of p t) = true -> f = s)).
+Proof. exact team_deps. Qed.
+Print Assumptions C04_subslot_teams.
